@@ -208,7 +208,8 @@ def run_locked(ck):
     ck.extra["routes_accepting_OPTIONS"] = sorted(set(o["tpl"] for o in ops if o["op"] == "route" and (not o.get("methods") or "OPTIONS" in o["methods"])))
     ck.extra["server_census"] = {"counts": asm.get("census_counts"), "sites": census,
                                  "default_mux_patterns": asm.get("default_mux_patterns"), "default_mux_served": asm.get("default_mux_served"),
-                                 "pass_through_source": asm.get("pass_through_source")}
+                                 "pass_through_source": asm.get("pass_through_source"),
+                                 "verification_hook_files_skipped (zz_verif_*.go under //go:build verif, not part of the product)": asm.get("hook_files_skipped")}
 
     props_ok = ck.coq_props()
 
@@ -290,6 +291,26 @@ def run_locked(ck):
                       % (r0["method"], (" -H %s" % json.dumps("Authorization: " + r0["authorization"])) if r0["authorization"] else "", r0["path"], r0["headers"],
                          r0["remote"], aup[0]["login"], aup[0]["pass"], r0["status"], r0["next"]),
                       "replay": "bin/check C20   (harness probe kind=authprobe)"})
+    # -------- path cleaning: path_clean (model) = "an empty mux router does not redirect" on generated paths
+    pp = [l for l in lines if l["kind"] == "pathprobe"]
+    prow = pp[0]["rows"] if pp else []
+    if prow:
+        txt = HEAD + "Definition P : list (N * string * bool) := [\n  %s].\n" % ";\n  ".join(
+            "(%d, %s, %s)" % (i, coq_string(unhex(r["path"])), coq_bool(r["redirect"])) for i, r in enumerate(prow))
+        txt += ("Definition PM := Eval vm_compute in flat_map (fun x : N * string * bool => let '(i, p, red) := x in "
+                "if Bool.eqb (path_clean p) (negb red) then [] else [i]) P.\nPrint PM.\n")
+        rc, out = ck.coq_eval("C20_paths", txt)
+        pm = ids_of(out, "PM") if rc == 0 else None
+        nred = sum(1 for r in prow if r["redirect"])
+        ck.obligation("path_clean (model/Router.v) = gorilla/mux's cleanPath(p) == p on %d generated paths over '/', '.', letters (%d redirected with 301, %d not)"
+                      % (len(prow), nred, len(prow) - nred), pm == [] and nred > 100 and len(prow) - nred > 100,
+                      "disagreeing paths: %s" % ([unhex(prow[i]["path"]).decode("latin1") for i in (pm or [])[:8]] if pm is not None else out[-600:]))
+        if pm:
+            ck.violation({"property": "C20", "kind": "model/Router.v path_clean and gorilla/mux path cleaning disagree", "case": {"kind": "pathprobe", **prow[pm[0]]},
+                          "path": unhex(prow[pm[0]]["path"]).decode("latin1")}, no_input=True)
+        ck.coverage["evaluations"] += len(prow)
+    else:
+        ck.obligation("path probe ran", False, "no pathprobe line")
     dmp = [l for l in lines if l["kind"] == "defaultmux"]
     dm_status = dmp[0]["status"] if dmp else {}
     ck.extra["default_mux_of_a_process_linking_the_packages"] = dm_status
